@@ -401,6 +401,24 @@ func (h *c29Hist) readSeen(path string, off, count int, data string) bool {
 	return false
 }
 
+// readPrefixSeen: the data are a non-empty proper prefix of what some state held at that range. A READ
+// racing with a WRITE that grows the file may legitimately return fewer bytes than the new state has
+// (it sized its buffer before the write) as long as it does not claim eof.
+//
+//go:norace
+func (h *c29Hist) readPrefixSeen(path string, off int, data string) bool {
+	for i := range h.contents {
+		if h.contents[i].k != path {
+			continue
+		}
+		c := h.contents[i].v
+		if len(data) > 0 && off+len(data) < len(c) && c[off:off+len(data)] == data {
+			return true
+		}
+	}
+	return false
+}
+
 //go:norace
 func (h *c29Hist) listingSeen(dir, l string) bool { return kvHas(h.listings, dir, l) }
 
@@ -517,6 +535,17 @@ func (c *c29Client) run(ops []C29Op) {
 				c.checkAttr("peek", pp, r.Attr)
 				if g, err := c.cl.Getattr(r.FH); err == nil && g.Status == 0 {
 					c.checkAttr("peek-getattr", pp, g.Attr)
+				}
+				if op.Len > 0 && r.Attr != nil && r.Attr.Type == 1 {
+					// and its data: whatever comes back is the content of some state the file had
+					off, cnt := op.Off%48, 1+op.Len%64
+					if rd, err := c.cl.Read(r.FH, uint64(off), uint32(cnt)); err == nil && rd.Status == 0 {
+						c.checkAttr("peek-read", pp, rd.Attr)
+						c.o.Tick()
+						if !c.hist.readSeen(pp, off, cnt, string(rd.Data)) && !(!rd.EOF && c.hist.readPrefixSeen(pp, off, string(rd.Data))) {
+							c.o.Vio("C29.read-data-of-no-state", fmt.Sprintf("cached=%v,peer", c.sc.Cached), "client %d READ of client %d's %s off=%d count=%d returned %x, which is the content of no state the file ever had", c.idx, op.Peer, pp, off, cnt, rd.Data)
+						}
+					}
 				}
 			} else if !c.hist.wasAbsent(pp) {
 				c.o.Vio("C29.absence-never-true", "op=peek", "client %d LOOKUP %s failed with status %d although the name existed during the whole run", c.idx, pp, r.Status)
@@ -690,12 +719,18 @@ func (c *c29Client) run(ops []C29Op) {
 				}
 				c.rec(c29In{Op: "dgetattr", Path: dir, Size: -1}, out, call)
 			}
-		case "readdir":
+		case "readdir", "readdirplus":
 			dir := c29Dirs[op.Dir%2]
 			call := simrt.Stamp()
-			x, _, err := c.cl.NFS(nfsclient.NFSProcReaddir, nfsclient.ArgsReaddir(c.dirs[op.Dir%2], 0, [8]byte{}, 8192))
+			var x any
+			var err error
+			if op.Op == "readdirplus" {
+				x, _, err = c.cl.NFS(nfsclient.NFSProcReaddirplus, nfsclient.ArgsReaddirplus(c.dirs[op.Dir%2], 0, [8]byte{}, 8192, 32768))
+			} else {
+				x, _, err = c.cl.NFS(nfsclient.NFSProcReaddir, nfsclient.ArgsReaddir(c.dirs[op.Dir%2], 0, [8]byte{}, 8192))
+			}
 			if err != nil || x == nil {
-				c.noReply("readdir", dir, orNotAccepted(err))
+				c.noReply(op.Op, dir, orNotAccepted(err))
 				continue
 			}
 			r := x.(*nfsclient.ReaddirRes)
@@ -703,6 +738,10 @@ func (c *c29Client) run(ops []C29Op) {
 			for _, e := range r.Entries {
 				if e.Name != "." && e.Name != ".." {
 					names = append(names, e.Name)
+					if e.Attr != nil && strings.HasPrefix(e.Name, "c") {
+						// READDIRPLUS: the attributes of each entry are those of some state the object had
+						c.checkAttr("readdirplus", strings.TrimSuffix(dir, "/")+"/"+e.Name, e.Attr)
+					}
 				}
 			}
 			sort.Strings(names)
@@ -1025,12 +1064,15 @@ func genC29(r *simrt.Rand, tier string) any {
 					op.Size = []int{0, 3, 17, 50}[r.Int(4)]
 				}
 			case 11:
-				op.Op = "readdir"
+				op.Op = []string{"readdir", "readdirplus"}[r.Int(2)]
 				op.Dir = r.Int(2)
 			case 12:
 				if sc.Cached {
 					op.Op = "peek"
 					op.Peer = r.Int(nc)
+					if r.Pct(40) {
+						op.Off, op.Len = []int{0, 0, 3, 25}[r.Int(4)], 10+r.Int(50)
+					}
 				} else {
 					op.Op = "readdir"
 					op.Dir = 0
@@ -1062,6 +1104,11 @@ func genC29(r *simrt.Rand, tier string) any {
 			for i := range sc.Clients[ci] {
 				if r.Pct(70) {
 					sc.Clients[ci][i] = C29Op{Op: "peek", Dir: 0, Name: 0, Peer: 0, Size: -1}
+					if r.Pct(30) {
+						sc.Clients[ci][i].Off, sc.Clients[ci][i].Len = r.Int(30), 10+r.Int(50)
+					}
+				} else if r.Pct(40) {
+					sc.Clients[ci][i] = C29Op{Op: "readdirplus", Dir: 0, Size: -1}
 				}
 			}
 		}
